@@ -92,6 +92,21 @@ class P(Prop):
             if op == "pw_integral_all":
                 c["knot"] = [C.bits(kx), C.bits(ky)]
             out.append(c)
+        for _ in range(12 if tier == "quick" else 150):
+            ty = rng.choice(["Poly0", "Poly1", "Poly2", "Poly3", "Log<Poly1>", "Log<Poly2>"])
+            log = ty.startswith("Log")
+            k = rng.randint(2, 5)
+            sc = rng.choice([2.0 ** -70, 1e-20, 1e-17, 2.0 ** -200])
+            es = [float(2 ** i) for i in range(k)]
+            sg = [[C.bits(e)] + [C.bits(sc * rng.choice([1.0, -2.0, 3.0, 0.5])) for _ in range(G.arity(ty))] for e in es]
+            kn = [C.bits(rng.choice([1.0, 0.5, 2.0])), C.bits(sc * rng.choice([0.0, 1.0, -3.0]))]
+            out.append(dict(op="pw_integral_all", ty=ty, segs=sg, knot=kn, libm=log, meta={"class": "integral/tiny_ordinates"}))
+        for _ in range(6 if tier == "quick" else 60):
+            ty = rng.choice(["Log<Poly1>", "Log<Poly2>", "Log<Poly3>"])
+            es = [2.0 ** -1040, 2.0 ** -1030, 2.0 ** -1025][:rng.randint(2, 3)]
+            sg = [[C.bits(e)] + [C.bits(rng.choice([1.0, -2.0, 3.0, 0.5])) for _ in range(G.arity(ty))] for e in es]
+            kn = [C.bits(rng.choice([2.0 ** -1060, 2.0 ** -1045, 2.0 ** -1040])), C.bits(0.0)]
+            out.append(dict(op="pw_integral_all", ty=ty, segs=sg, knot=kn, libm=True, meta={"class": "integral/subnormal_ends"}))
         out.append(dict(op="pw_indefinite", ty="Poly2", segs=[], meta={"class": "indefinite/empty"}))
         # indefinite() of functions whose FIRST piece is open-ended (end = +inf) or whose antiderivative overflows at its end:
         # the first piece must come back with additive constant zero, whatever its value at its breakpoint is
